@@ -181,6 +181,7 @@ impl<'tcx> Cx<'tcx> {
             ty::Closure(did, args) => J::obj(vec![
                 ("k", J::s("closure")),
                 ("path", J::Str(self.tcx.def_path_str(*did))),
+                ("inst", if did.is_local() { J::Null } else { J::Str(self.tcx.def_path_str_with_args(*did, args)) }),
                 (
                     "upvars",
                     J::Arr(args.as_closure().upvar_tys().iter().map(|t| self.ty(t)).collect()),
@@ -254,6 +255,12 @@ impl<'tcx> Cx<'tcx> {
                     ("k", J::s("cindex")),
                     ("i", J::Int(offset as i128)),
                     ("min_length", J::Int(min_length as i128)),
+                    ("from_end", J::Bool(from_end)),
+                ]),
+                ProjectionElem::Subslice { from, to, from_end } => J::obj(vec![
+                    ("k", J::s("subslice")),
+                    ("from", J::Int(from as i128)),
+                    ("to", J::Int(to as i128)),
                     ("from_end", J::Bool(from_end)),
                 ]),
                 other => J::obj(vec![("k", J::s("other")), ("s", J::Str(format!("{:?}", other)))]),
@@ -381,6 +388,18 @@ impl<'tcx> Cx<'tcx> {
                 return J::obj(v);
             }
             v.push(("named", J::Str(tcx.def_path_str(uv.def))));
+            if matches!(tcx.def_kind(uv.def), DefKind::AssocConst { .. }) {
+                if let Some(tr) = tcx.trait_of_assoc(uv.def) {
+                    v.push((
+                        "assoc",
+                        J::obj(vec![
+                            ("trait", J::Str(tcx.def_path_str(tr))),
+                            ("name", J::Str(tcx.item_name(uv.def).to_string())),
+                            ("args", self.generic_args(uv.args)),
+                        ]),
+                    ));
+                }
+            }
         }
         let env = self.env(owner);
         let scalar_like = matches!(
@@ -471,6 +490,7 @@ impl<'tcx> Cx<'tcx> {
                     ConstValue::Slice { alloc_id, meta } => {
                         let elem = match inner.kind() {
                             ty::Slice(e) => *e,
+                            ty::Str => tcx.types.u8,      // a string literal: its UTF-8 bytes
                             _ => return None,
                         };
                         let arr = Ty::new_array(tcx, elem, meta);
@@ -518,7 +538,8 @@ impl<'tcx> Cx<'tcx> {
                     GlobalAlloc::Memory(_) => {
                         let pointee = match (inner.kind(), meta) {
                             (ty::Slice(e), Some(n)) => Ty::new_array(tcx, *e, n),
-                            (ty::Slice(_), None) | (ty::Str, _) | (ty::Dynamic(..), _) => return None,
+                            (ty::Str, Some(n)) => Ty::new_array(tcx, tcx.types.u8, n),
+                            (ty::Slice(_), None) | (ty::Str, None) | (ty::Dynamic(..), _) => return None,
                             _ => *inner,
                         };
                         let j = self.const_value(ConstValue::Indirect { alloc_id, offset }, pointee, depth + 1)?;
@@ -627,9 +648,11 @@ impl<'tcx> Cx<'tcx> {
                     }
                     AggregateKind::Tuple => v.push(("kind", J::s("tuple"))),
                     AggregateKind::Array(_) => v.push(("kind", J::s("array"))),
-                    AggregateKind::Closure(did, _) => {
+                    AggregateKind::Closure(did, cargs) => {
                         v.push(("kind", J::s("closure")));
                         v.push(("path", J::Str(self.tcx.def_path_str(*did))));
+                        // in monomorphised library bodies the instance tells apart several instantiations of one closure
+                        v.push(("path_inst", J::Str(self.tcx.def_path_str_with_args(*did, cargs))));
                     }
                     other => {
                         v.push(("kind", J::s("other")));
@@ -845,8 +868,26 @@ fn dump_adt<'tcx>(cx: &Cx<'tcx>, did: DefId) -> J {
     let tcx = cx.tcx;
     let adt = tcx.adt_def(did);
     let mut variants = Vec::new();
-    let discrs: Vec<u128> = if adt.is_enum() {
-        adt.discriminants(tcx).map(|(_, d)| d.val).collect()
+    // discriminant values as mathematical integers (rustc stores the raw bits: -1i8 is 255)
+    let discrs: Vec<i128> = if adt.is_enum() {
+        adt.discriminants(tcx)
+            .map(|(_, d)| {
+                if d.ty.is_signed() {
+                    let bits = match d.ty.kind() {
+                        ty::Int(it) => it.bit_width().unwrap_or(tcx.data_layout.pointer_size().bits()),
+                        _ => 128,
+                    };
+                    if bits >= 128 {
+                        d.val as i128
+                    } else {
+                        let m = d.val & ((1u128 << bits) - 1);
+                        if m >> (bits - 1) & 1 == 1 { m as i128 - (1i128 << bits) } else { m as i128 }
+                    }
+                } else {
+                    d.val as i128
+                }
+            })
+            .collect()
     } else {
         vec![0]
     };
@@ -865,7 +906,7 @@ fn dump_adt<'tcx>(cx: &Cx<'tcx>, did: DefId) -> J {
         variants.push(J::obj(vec![
             ("name", J::Str(v.name.to_string())),
             ("idx", J::Int(i as i128)),
-            ("discr", J::Int(discrs.get(i).copied().unwrap_or(0) as i128)),
+            ("discr", J::Int(discrs.get(i).copied().unwrap_or(0))),
             ("fields", J::Arr(fields)),
         ]));
     }
@@ -923,11 +964,21 @@ fn dump_crate<'tcx>(tcx: TyCtxt<'tcx>, name: &str) -> J {
                     .associated_items(did)
                     .in_definition_order()
                     .map(|it| {
-                        J::obj(vec![
+                        let mut o = vec![
                             ("name", J::Str(it.name().to_string())),
                             ("path", J::Str(tcx.def_path_str(it.def_id))),
                             ("is_fn", J::Bool(matches!(it.kind, ty::AssocKind::Fn { .. }))),
-                        ])
+                        ];
+                        if matches!(it.kind, ty::AssocKind::Const { .. }) && tcx.generics_of(it.def_id).count() == 0 {
+                            // value of an associated constant of a non-generic impl (looked up when generic code names `T::N`)
+                            let ct = tcx.type_of(it.def_id).instantiate_identity().skip_norm_wip();
+                            if let Ok(val) = tcx.const_eval_poly(it.def_id) {
+                                if let Some(j) = cx.const_value(val, ct, 0) {
+                                    o.push(("val", j));
+                                }
+                            }
+                        }
+                        J::obj(o)
                     })
                     .collect();
                 v.push(("items", J::Arr(items)));
@@ -1069,6 +1120,18 @@ fn dump_crate<'tcx>(tcx: TyCtxt<'tcx>, name: &str) -> J {
                 }),
             ),
         ];
+        // type parameters in substitution order (ancestors first), aligned with the type-only `args` of a resolved call
+        {
+            let g = tcx.generics_of(did);
+            let mut names: Vec<J> = Vec::new();
+            for i in 0..g.count() {
+                let p = g.param_at(i, tcx);
+                if matches!(p.kind, ty::GenericParamDefKind::Type { .. }) {
+                    names.push(J::Str(p.name.to_string()));
+                }
+            }
+            v.push(("tparams", J::Arr(names)));
+        }
         // enclosing impl
         if let Some(parent) = tcx.opt_parent(did) {
             if let DefKind::Impl { of_trait } = tcx.def_kind(parent) {
@@ -1115,7 +1178,7 @@ fn dump_crate<'tcx>(tcx: TyCtxt<'tcx>, name: &str) -> J {
     loop {
         let inst = {
             let q = cx.ext_todo.borrow();
-            if idx >= q.len() || idx >= 400 {
+            if idx >= q.len() || idx >= 4000 {
                 break;
             }
             q[idx]
@@ -1151,7 +1214,7 @@ fn dump_crate<'tcx>(tcx: TyCtxt<'tcx>, name: &str) -> J {
     loop {
         let rd = {
             let q = cx.ext_generic_todo.borrow();
-            if gi >= q.len() || gi >= 200 {
+            if gi >= q.len() || gi >= 2000 {
                 break;
             }
             q[gi]
